@@ -46,10 +46,33 @@ CONFORMABLE = {"tvd1", "Mdiff", "Mconv", "Mup", "Mupalt", "ghost", "Mbc", "Rbc",
 
 
 SOLVE_CLAUSES = {"C04_Solves", "C04_SameObject", "C04_SameAsMatrixPDE", "C04_ExternalSolver", "C04_Variants",
-                 "C04_Linear", "C04_Assembly", "C12_Residual", "C12_History", "C12_Limits", "C12_FixedPoint", "C12_ExplicitStep",
+                 "C04_Linear", "C04_Assembly", "C12_Residual", "C12_History", "C12_HistoryPeriodic", "C12_Limits", "C12_FixedPoint", "C12_ExplicitStep",
                  "C12_ExplicitBCs", "C12_InputUntouched", "C12_ExplicitUsable", "C03_SolvedRobin"}
 for _c in SOLVE_CLAUSES:
     NEEDS[_c] = []
+
+
+# which observed outputs a solver clause reads (an unliftable value in one of them makes a FAILING verdict
+# undecided) ...
+UNKNOWN_SCOPE = {
+    "C04_Solves": ["r_solve"], "C04_SameObject": ["flags"], "C04_SameAsMatrixPDE": ["r_solve", "r_matrix"],
+    "C04_ExternalSolver": ["Mext", "Mhand", "Rext", "Rhand", "r_ext"], "C04_Variants": ["r_variants"],
+    "C04_Linear": ["r_solve", "r_solve2", "r_sum"],
+    "C04_Assembly": ["Mhand", "Rhand", "Mbc", "Rbc", "Aspatial", "gamma"],
+    "C12_Residual": ["Aspatial", "gamma", "r_solve"], "C12_History": ["r_history"],
+    "C12_HistoryPeriodic": ["r_history_per"], "C12_Limits": ["limits"], "C12_FixedPoint": ["r_fixed"],
+    "C12_ExplicitStep": ["dt_explicit", "in_explicit", "rhs_explicit", "r_explicit"],
+    "C12_ExplicitBCs": ["r_explicit"], "C12_InputUntouched": ["flags"],
+    "C12_ExplicitUsable": ["flags", "r_after_explicit"], "C03_SolvedRobin": ["r_solve"],
+}
+# ... except where the output is compared, entry by entry, with an exact small-rational TARGET of the
+# configuration (x* is integer-valued): a finite value that is not within the lifting tolerance of ANY small
+# rational is in particular different from the target, so the clause is decided: failing
+TARGETED = {
+    "C04_Solves": ["r_solve"], "C04_Variants": ["r_variants"], "C12_History": ["r_history"],
+    "C12_HistoryPeriodic": ["r_history_per"], "C12_FixedPoint": ["r_fixed"],
+    "C12_ExplicitUsable": ["r_after_explicit"], "C04_ExternalSolver": ["r_ext"],
+}
 
 
 def make_episodes(configs, clauses_for, extra_conform=(), observe=None):
@@ -63,6 +86,8 @@ def make_episodes(configs, clauses_for, extra_conform=(), observe=None):
             continue
         if "r_fixed" not in obs:
             wanted = [w for w in wanted if w != "C12_FixedPoint"]
+        if "r_history_per" not in obs:
+            wanted = [w for w in wanted if w != "C12_HistoryPeriodic"]
         if obs.get("solve_skipped"):
             wanted = [w for w in wanted if w not in ("C17_solution", "C08_Solve")]
         conform = sorted((set(want) | set(extra_conform)) & CONFORMABLE & set(obs))
@@ -196,8 +221,8 @@ def run_property(prop, tier, seed, *, clauses_for, n_quick, n_thorough, gen_kw=N
         for cl in list(v["failing"]):
             # a clause that touches a finite observation which could not be lifted (true denominator
             # beyond the lifting bound) cannot be decided exactly: undecided, not failing
-            needs = NEEDS.get(cl) or list(e["obs"].keys())
-            if any(o in unknown_out for o in needs):
+            needs = UNKNOWN_SCOPE.get(cl) or NEEDS.get(cl) or list(e["obs"].keys())
+            if any(o in unknown_out and o not in TARGETED.get(cl, ()) for o in needs):
                 v["failing"].remove(cl)
                 v.setdefault("undecided", []).append(cl)
         for cl in v["failing"]:
